@@ -383,6 +383,11 @@ class Ctx:
               "coverage": cov, "assumptions": self.assumptions, "wall_s": round(wall, 2),
               "violations": len(new), "known_findings_seen": sorted(seen_known),
               "repo": self.repo, "notes": self.notes}
+        if self.level == "model_checking" and (cov.get("states", 0) < 1 or cov.get("transitions", 0) < 1):
+            # no TLC run was counted in this invocation (e.g. a harness-only mode): fall back to the generic keys
+            cov.pop("states", None)
+            cov.pop("transitions", None)
+            self.notes.append("no TLC state count in this run; generic coverage keys only")
         if self.level in ("exploration", "fault_enumeration"):
             cov["evaluations"] = max(cov["evaluations"], 1)
         os.makedirs(os.path.join(VERIF, "evidence"), exist_ok=True)
